@@ -92,6 +92,7 @@ fn task_main(ix: usize, sh: Arc<Shared>, cmd_rx: Receiver<Cmd>, rep_tx: Sender<(
         at_gate: Cell::new(None),
         keep: RefCell::new(None),
         cur_op: Cell::new("none"),
+        lock_free: None,
     });
     CTX.with(|x| *x.borrow_mut() = Some(c.clone()));
     deadpool::verif::set_hook(Some(Box::new(park_point)));
